@@ -42,6 +42,9 @@ const MAXBUF: usize = 1 << 20;
 struct ChanStream {
     rx: mpsc::UnboundedReceiver<Vec<u8>>,
     written: Arc<Mutex<Vec<u8>>>,
+    /// set when the handler has come back to `read` and found nothing: everything sent so far
+    /// has been processed and answered
+    idle: Arc<std::sync::atomic::AtomicBool>,
 }
 impl AsyncRead for ChanStream {
     fn poll_read(mut self: Pin<&mut Self>, cx: &mut Context<'_>, buf: &mut ReadBuf<'_>) -> Poll<std::io::Result<()>> {
@@ -52,7 +55,10 @@ impl AsyncRead for ChanStream {
                 Poll::Ready(Ok(()))
             }
             Poll::Ready(None) => Poll::Ready(Ok(())), // EOF
-            Poll::Pending => Poll::Pending,
+            Poll::Pending => {
+                self.idle.store(true, std::sync::atomic::Ordering::SeqCst);
+                Poll::Pending
+            }
         }
     }
 }
@@ -139,19 +145,31 @@ struct Env {
     metrics: Arc<Metrics>,
 }
 
-/// feed the steps one at a time; conns: 0 = A, 1 = B
-fn run(env: &Env, shards: usize, steps: &[(usize, Vec<u8>)]) -> Ran {
+/// one write of a client: `bytes` may hold several commands and may end (or start) inside one;
+/// `completes` = how many commands it completes (= replies expected before the next write)
+#[derive(Clone)]
+struct SendPlan {
+    conn: usize, // 0 = A, 1 = B, 2 = pause (bytes = milliseconds in ASCII)
+    bytes: Vec<u8>,
+    completes: usize,
+}
+
+/// feed the writes one at a time: the next one is sent only when the handler that got the previous
+/// one is back in `read` with nothing to do; returns what each write was answered with
+fn run(env: &Env, shards: usize, sends: &[SendPlan]) -> Ran {
     let r = catch_unwind(AssertUnwindSafe(|| {
         let local = tokio::task::LocalSet::new();
         local.block_on(&env.rt, async {
             let state = ShardedActorState::with_shards(shards);
             let mut txs = Vec::new();
             let mut outs = Vec::new();
+            let mut idles = Vec::new();
             let mut handles = Vec::new();
             for c in 0..2 {
                 let (tx, rx) = mpsc::unbounded_channel::<Vec<u8>>();
                 let written = Arc::new(Mutex::new(Vec::new()));
-                let stream = ChanStream { rx, written: written.clone() };
+                let idle = Arc::new(std::sync::atomic::AtomicBool::new(false));
+                let stream = ChanStream { rx, written: written.clone(), idle: idle.clone() };
                 let pool = ConnectionPool::new(2, 2);
                 let acl = Arc::new(parking_lot::RwLock::new(AclManager::new()));
                 let config = ConnectionConfig { max_buffer_size: MAXBUF, read_buffer_size: 65536, min_pipeline_buffer: 60, batch_threshold: 2 };
@@ -159,38 +177,33 @@ fn run(env: &Env, shards: usize, steps: &[(usize, Vec<u8>)]) -> Ran {
                 handles.push(tokio::task::spawn_local(h.run()));
                 txs.push(tx);
                 outs.push(written);
+                idles.push(idle);
             }
             let mut replies = Vec::new();
-            for (si, (c, frame)) in steps.iter().enumerate() {
-                if *c == 2 {
-                    // a pause: frame holds the milliseconds in ASCII
-                    let ms: u64 = std::str::from_utf8(frame).unwrap().parse().unwrap();
+            for (si, sp) in sends.iter().enumerate() {
+                let c = sp.conn;
+                if c == 2 {
+                    let ms: u64 = std::str::from_utf8(&sp.bytes).unwrap().parse().unwrap();
                     tokio::time::sleep(std::time::Duration::from_millis(ms)).await;
                     replies.push(Vec::new());
                     continue;
                 }
-                let before = outs[*c].lock().unwrap().len();
-                if txs[*c].send(frame.clone()).is_err() {
+                let before = outs[c].lock().unwrap().len();
+                idles[c].store(false, std::sync::atomic::Ordering::SeqCst);
+                if txs[c].send(sp.bytes.clone()).is_err() {
                     return Ran::Hang(si);
                 }
                 let start = std::time::Instant::now();
                 let mut spins = 0u64;
                 loop {
                     tokio::task::yield_now().await;
-                    {
-                        let w = outs[*c].lock().unwrap();
-                        if w.len() > before {
-                            if let Some(e) = resp_end(&w, before, 0) {
-                                if e == w.len() {
-                                    replies.push(w[before..].to_vec());
-                                    break;
-                                }
-                            }
-                        }
+                    if idles[c].load(std::sync::atomic::Ordering::SeqCst) {
+                        replies.push(outs[c].lock().unwrap()[before..].to_vec());
+                        break;
                     }
-                    if handles[*c].is_finished() {
+                    if handles[c].is_finished() {
                         // the connection task ended (panic inside the task): surface it
-                        return Ran::Panic(format!("connection task of client {} ended at step {}", c, si));
+                        return Ran::Panic(format!("connection task of client {} ended at write {}", c, si));
                     }
                     spins += 1;
                     if spins % 64 == 0 {
@@ -212,6 +225,32 @@ fn run(env: &Env, shards: usize, steps: &[(usize, Vec<u8>)]) -> Ran {
         Ok(x) => x,
         Err(e) => Ran::Panic(e.downcast_ref::<String>().cloned().or_else(|| e.downcast_ref::<&str>().map(|s| s.to_string())).unwrap_or_default()),
     }
+}
+
+/// one write per command
+fn singles(steps: &[(usize, Vec<u8>)]) -> Vec<SendPlan> {
+    steps.iter().map(|s| SendPlan { conn: s.0, bytes: s.1.clone(), completes: if s.0 == 2 { 0 } else { 1 } }).collect()
+}
+/// split what the writes were answered with into one reply per command; None = some write was
+/// answered with a different number of replies than commands it completed
+fn per_command(sends: &[SendPlan], answered: &[Vec<u8>]) -> Option<Vec<Vec<u8>>> {
+    let mut v = Vec::new();
+    for (sp, a) in sends.iter().zip(answered.iter()) {
+        if sp.conn == 2 {
+            v.push(Vec::new());
+            continue;
+        }
+        let mut p = 0;
+        for _ in 0..sp.completes {
+            let e = resp_end(a, p, 0)?;
+            v.push(a[p..e].to_vec());
+            p = e;
+        }
+        if p != a.len() {
+            return None;
+        }
+    }
+    Some(v)
 }
 
 fn hashes_agree(k: &[u8], n: u64) -> bool {
@@ -310,11 +349,67 @@ enum Role {
 }
 
 struct Scenario {
-    steps: Vec<(usize, Vec<u8>, Role, String)>,
-    ttl: bool, // a key with a deadline and real pauses are involved
+    steps: Vec<(usize, Vec<u8>, Role, String)>, // the commands, in the order they complete
+    sends: Vec<SendPlan>,                       // how they travel: one write per command, or pipelined chunks
+}
+
+type Step = (usize, Vec<u8>, Role, String);
+/// commands pushed since the last call travel one per write
+fn flush_singles(sends: &mut Vec<SendPlan>, steps: &[Step], covered: &mut usize) {
+    for s in &steps[*covered..] {
+        sends.push(SendPlan { conn: s.0, bytes: s.1.clone(), completes: if s.0 == 2 { 0 } else { 1 } });
+    }
+    *covered = steps.len();
+}
+/// A's commands `frames` travel PIPELINED: concatenated and cut at 0-3 random positions (also inside a
+/// command); between two chunks B sometimes probes one key (it must see no effect of queued commands)
+fn push_pipelined(steps: &mut Vec<Step>, sends: &mut Vec<SendPlan>, covered: &mut usize, frames: Vec<(Vec<u8>, Role, String)>, keys: &[Vec<u8>], rng: &mut Rng, out: &mut Out) {
+    flush_singles(sends, steps, covered);
+    let total: Vec<u8> = frames.iter().flat_map(|f| f.0.clone()).collect();
+    let l = total.len();
+    let mut ends = Vec::new();
+    let mut p = 0;
+    for f in &frames {
+        p += f.0.len();
+        ends.push(p);
+    }
+    let ncut = *[0usize, 1, 1, 2, 3].choose(rng).unwrap();
+    let mut cuts: Vec<usize> = (0..ncut).map(|_| rng.gen_range(1..l.max(2))).filter(|c| *c < l).collect();
+    cuts.sort();
+    cuts.dedup();
+    out.count(&format!("pipelined:chunks:{}", cuts.len() + 1));
+    cuts.push(l);
+    let mut fi = 0;
+    let mut prev = 0;
+    let mut it = frames.into_iter();
+    for &c in &cuts {
+        let mut completes = 0;
+        while fi < ends.len() && ends[fi] <= c {
+            let f = it.next().unwrap();
+            steps.push((0, f.0, f.1, f.2));
+            completes += 1;
+            fi += 1;
+        }
+        if c - prev >= 60 {
+            out.count("pipelined:chunk_of_60_bytes_or_more");
+        }
+        sends.push(SendPlan { conn: 0, bytes: total[prev..c].to_vec(), completes });
+        *covered = steps.len();
+        prev = c;
+        if c != l && rng.gen_bool(0.6) {
+            let i = rng.gen_range(0..keys.len());
+            for (j, pr) in probes(&keys[i]).into_iter().enumerate() {
+                steps.push((1, pr, Role::DumpBefore(i, j), "mid-probe".into()));
+            }
+            flush_singles(sends, steps, covered);
+            out.count("pipelined:b_probes_between_chunks");
+        }
+    }
 }
 
 fn gen_scenario(keys: &[Vec<u8>], rng: &mut Rng, out: &mut Out) -> Scenario {
+    let mut sends: Vec<SendPlan> = Vec::new();
+    let mut covered = 0usize;
     let mut steps: Vec<(usize, Vec<u8>, Role, String)> = Vec::new();
     let nk = keys.len();
     // set-up: every key gets a random type
@@ -331,6 +426,13 @@ fn gen_scenario(keys: &[Vec<u8>], rng: &mut Rng, out: &mut Out) -> Scenario {
     let ttl_px: &[u8] = if rng.gen_bool(0.75) { b"40" } else { b"60000" };
     let ttl_pause_before_multi = rng.gen_bool(0.5);
     let ttl_touch_shard = rng.gen_bool(0.4); // a generic command on the key's shard after the pause
+    // quiet: NOBODY sends anything between the pause and EXEC (B's probes are generic-path commands and
+    // would move the shard's clock): A watches key 0 only, the pause comes right before EXEC, and the
+    // EXEC-time fingerprint of key 0 is taken right AFTER EXEC (nobody writes key 0 in these scenarios)
+    let ttl_quiet = ttl && rng.gen_bool(0.5);
+    if ttl_quiet {
+        out.count("ttl:quiet_between_expiry_and_exec");
+    }
     if ttl {
         out.count(&format!("ttl:px{}", String::from_utf8_lossy(ttl_px)));
         steps.push((1, enc(&[b"DEL", &keys[0]]), Role::Setup, "ttl-setup".into()));
@@ -365,6 +467,9 @@ fn gen_scenario(keys: &[Vec<u8>], rng: &mut Rng, out: &mut Out) -> Scenario {
             }
             if ttl {
                 ks[0] = 0;
+            }
+            if ttl_quiet {
+                ks.truncate(1);
             }
             if ks.iter().any(|k| watched.contains(k)) {
                 out.count("watch:key_watched_again");
@@ -406,13 +511,54 @@ fn gen_scenario(keys: &[Vec<u8>], rng: &mut Rng, out: &mut Out) -> Scenario {
                 wr(&mut steps, rng, out, &watched);
             }
         }
-        if ttl && ttl_pause_before_multi {
+        // how A's transaction travels: 0 = one write per command; 1 = MULTI alone, then the body pipelined;
+        // 2 = MULTI alone, then body + EXEC pipelined; 3 = WATCH + MULTI + body + EXEC pipelined
+        let pipe = if ttl { 0 } else { match rng.gen_range(0..10) { 0..=4 => 0, 5..=6 => 1, 7..=8 => 2, _ => 3 } };
+        out.count(&format!("transport:{}", ["one-write-per-command", "body-pipelined", "body+exec-pipelined", "watch+multi+body+exec-pipelined"][pipe]));
+        let mut region: Vec<(Vec<u8>, Role, String)> = Vec::new();
+        let probe_e = |steps: &mut Vec<Step>| {
+            for i in 0..nk {
+                for (j, p) in probes(&keys[i]).into_iter().enumerate() {
+                    steps.push((1, p, Role::ProbeE(i, j), "probe".into()));
+                }
+            }
+        };
+        if pipe == 3 {
+            // nobody writes once the pipelined block has started: the EXEC-time fingerprints are taken now
+            let kx = if !watched.is_empty() && rng.gen_bool(0.5) { *watched.choose(rng).unwrap() } else { rng.gen_range(0..nk) };
+            for (j, p) in probes(&keys[kx]).into_iter().enumerate() {
+                steps.push((1, p, Role::ProbeW(kx, j), "probe".into()));
+            }
+            probe_e(&mut steps);
+            region.push((enc(&[b"WATCH", &keys[kx]]), Role::Watch(vec![kx]), "watch".into()));
+            if !watched.contains(&kx) {
+                watched.push(kx);
+            }
+        }
+        if ttl && ttl_pause_before_multi && !ttl_quiet {
             steps.push((2, b"90".to_vec(), Role::Sleep(90), "pause".into()));
             if ttl_touch_shard {
                 steps.push((1, enc(&[b"LLEN", &keys[0]]), Role::Between, "touch-shard".into()));
             }
         }
-        steps.push((0, enc(&[b"MULTI"]), Role::Multi, "multi".into()));
+        if pipe == 3 {
+            region.push((enc(&[b"MULTI"]), Role::Multi, "multi".into()));
+        } else {
+            steps.push((0, enc(&[b"MULTI"]), Role::Multi, "multi".into()));
+        }
+        if pipe == 2 {
+            probe_e(&mut steps);
+        }
+        // a pipelined body starts with a run of 2-6 plain GET / SET (two SETs are already 60 bytes)
+        if pipe > 0 {
+            for _ in 0..rng.gen_range(2..7) {
+                let k = keys.choose(rng).unwrap();
+                let v = *VALS.choose(rng).unwrap();
+                let f = if rng.gen_bool(0.6) { enc(&[[b"SET".as_ref(), b"set"].choose(rng).unwrap(), k, v]) } else { enc(&[[b"GET".as_ref(), b"get"].choose(rng).unwrap(), k]) };
+                out.count("body:plain-get-set-run");
+                region.push((f, Role::Body(true), "get/set".into()));
+            }
+        }
         // body
         let nb = rng.gen_range(0..6);
         for _ in 0..nb {
@@ -439,29 +585,45 @@ fn gen_scenario(keys: &[Vec<u8>], rng: &mut Rng, out: &mut Out) -> Scenario {
                 _ => ("zadd", enc(&[b"ZADD", k, b"3", b"m3"]), true),
             };
             out.count(&format!("body:{}", label));
-            steps.push((0, frame, Role::Body(queued), label.into()));
-            if rng.gen_range(0..4) == 0 {
+            if pipe > 0 {
+                region.push((frame, Role::Body(queued), label.into()));
+            } else {
+                steps.push((0, frame, Role::Body(queued), label.into()));
+                if rng.gen_range(0..4) == 0 {
+                    wr(&mut steps, rng, out, &watched);
+                }
+            }
+        }
+        if pipe == 1 {
+            push_pipelined(&mut steps, &mut sends, &mut covered, std::mem::take(&mut region), keys, rng, out);
+        }
+        if pipe <= 1 {
+            for _ in 0..rng.gen_range(0..2) {
                 wr(&mut steps, rng, out, &watched);
             }
         }
-        for _ in 0..rng.gen_range(0..2) {
-            wr(&mut steps, rng, out, &watched);
-        }
-        if ttl && !ttl_pause_before_multi {
+        if ttl_quiet {
+            steps.push((2, b"90".to_vec(), Role::Sleep(90), "pause".into()));
+        } else if ttl && !ttl_pause_before_multi {
             steps.push((2, b"90".to_vec(), Role::Sleep(90), "pause".into()));
             if ttl_touch_shard {
                 steps.push((1, enc(&[b"LLEN", &keys[0]]), Role::Between, "touch-shard".into()));
             }
         }
-        for i in 0..nk {
-            for (j, p) in probes(&keys[i]).into_iter().enumerate() {
-                steps.push((1, p, Role::ProbeE(i, j), "probe".into()));
-            }
+        if pipe <= 1 && !ttl_quiet {
+            probe_e(&mut steps);
         }
-        if rng.gen_range(0..7) == 0 {
-            steps.push((0, enc(&[b"DISCARD"]), Role::Discard, "discard".into()));
+        let fin: Step = if rng.gen_range(0..7) == 0 { (0, enc(&[b"DISCARD"]), Role::Discard, "discard".into()) } else { (0, enc(&[b"EXEC"]), Role::Exec, "exec".into()) };
+        if pipe >= 2 {
+            region.push((fin.1, fin.2, fin.3));
+            push_pipelined(&mut steps, &mut sends, &mut covered, std::mem::take(&mut region), keys, rng, out);
         } else {
-            steps.push((0, enc(&[b"EXEC"]), Role::Exec, "exec".into()));
+            steps.push(fin);
+        }
+        if ttl_quiet {
+            for (j, p) in probes(&keys[0]).into_iter().enumerate() {
+                steps.push((1, p, Role::ProbeE(0, j), "probe-after-exec".into()));
+            }
         }
         if rng.gen_bool(0.3) {
             let k = keys.choose(rng).unwrap();
@@ -474,7 +636,8 @@ fn gen_scenario(keys: &[Vec<u8>], rng: &mut Rng, out: &mut Out) -> Scenario {
             steps.push((1, p, Role::Dump(i, j), "dump".into()));
         }
     }
-    Scenario { steps, ttl }
+    flush_singles(&mut sends, &steps, &mut covered);
+    Scenario { steps, sends }
 }
 
 fn main() {
@@ -498,18 +661,42 @@ fn main() {
         let shards = if rng.gen_bool(0.5) { 1 } else { 4 };
         out.count(&format!("shards:{}", shards));
         let sc = gen_scenario(&keys, &mut rng, &mut out);
-        let plain: Vec<(usize, Vec<u8>)> = sc.steps.iter().map(|s| (s.0, s.1.clone())).collect();
-        let got = run(&env, shards, &plain);
+        let got = run(&env, shards, &sc.sends);
         out.impl_checks += 1;
         let descr = |replies: &[Vec<u8>]| -> Vec<String> {
             sc.steps.iter().enumerate().filter(|(_, s)| !matches!(s.2, Role::DumpBefore(..) | Role::Dump(..) | Role::ProbeW(..) | Role::ProbeE(..))).map(|(j, s)| format!("{} {:?} -> {:?}", if s.0 == 0 { "A" } else if s.0 == 1 { "B" } else { "pause ms" }, String::from_utf8_lossy(&s.1), replies.get(j).map(|r| String::from_utf8_lossy(r).to_string()))).collect()
         };
-        let replies = match got {
+        let answered = match got {
             Ran::Ok(r) => r,
             other => {
                 out.violation(i, "the connection handler panicked or hung during a transaction scenario", json!({"result": format!("{:?}", other), "steps": descr(&[])}));
                 let term = "(KTx [] [] [] true)".to_string();
                 out.case(i, term, false, "");
+                continue;
+            }
+        };
+        // the model side: the writes as they travelled and what each was answered with
+        let mut tbl: Vec<Vec<u8>> = Vec::new();
+        let mut idx: std::collections::HashMap<Vec<u8>, usize> = Default::default();
+        let mut ix = |b: &Vec<u8>, tbl: &mut Vec<Vec<u8>>| -> usize {
+            if let Some(&n) = idx.get(b) {
+                return n;
+            }
+            tbl.push(b.clone());
+            idx.insert(b.clone(), tbl.len() - 1);
+            tbl.len() - 1
+        };
+        // (1, i) = A writes tbl[i]; (0, i) = B writes tbl[i]; (2, ms) = a pause
+        let step_ix: Vec<(usize, usize)> = sc.sends.iter().map(|sp| if sp.conn == 2 { (2, std::str::from_utf8(&sp.bytes).unwrap().parse().unwrap()) } else { (if sp.conn == 0 { 1 } else { 0 }, ix(&sp.bytes, &mut tbl)) }).collect();
+        let reply_ix: Vec<usize> = answered.iter().map(|r| ix(r, &mut tbl)).collect();
+        let term = format!("(KTx {} {} {} false)", clist(tbl.iter(), |b| chex(b)), clist(step_ix.iter(), |s| format!("({}, {})", s.0, s.1)), clist(reply_ix.iter(), |r| r.to_string()));
+        let canon = format!("{}{}", shards, sc.sends.iter().zip(answered.iter()).map(|(s, r)| format!("{}{}{}", s.conn, hex(&s.bytes), hex(r))).collect::<String>());
+        let replies = match per_command(&sc.sends, &answered) {
+            Some(r) => r,
+            None => {
+                let w: Vec<String> = sc.sends.iter().zip(answered.iter()).filter(|(sp, _)| sp.conn == 0).map(|(sp, a)| format!("A writes {:?} (completes {} commands) -> {:?}", String::from_utf8_lossy(&sp.bytes), sp.completes, String::from_utf8_lossy(a))).collect();
+                out.violation(i, "T1: a write was answered with a different number of replies than the commands it completes", json!({"writes_of_A": w}));
+                out.case(i, term, true, &canon);
                 continue;
             }
         };
@@ -563,7 +750,6 @@ fn main() {
                     in_multi = true;
                     aborted = false;
                     queued.clear();
-                    fp_e.clear();
                     dump_b.clear();
                     if r != b"+OK\r\n" {
                         out.violation(i, "MULTI was not answered +OK", json!({"steps": descr(&replies)}));
@@ -626,7 +812,16 @@ fn main() {
                         let mut changed_keys = Vec::new();
                         for &k in &watched {
                             let w = fp_w.get(&k).cloned().unwrap_or_default();
-                            let e = fp_e.get(&k).cloned().unwrap_or_default();
+                            let mut e = fp_e.get(&k).cloned().unwrap_or_default();
+                            if e.is_empty() {
+                                // quiet deadline scenario: the fingerprint is taken right after EXEC
+                                for (jj, s2) in sc.steps.iter().enumerate().skip(j + 1) {
+                                    match &s2.2 {
+                                        Role::ProbeE(k2, _) if *k2 == k => e.push(replies[jj].clone()),
+                                        _ => break,
+                                    }
+                                }
+                            }
                             // EVERY snapshot of the key since the last EXEC / DISCARD / UNWATCH (it may have been
                             // watched more than once) must equal the EXEC-time fingerprint: the first WATCH decides
                             let differing: Vec<&Vec<Vec<u8>>> = w.iter().filter(|sn| **sn != e).collect();
@@ -678,6 +873,7 @@ fn main() {
                     in_multi = false;
                     watched.clear();
                     fp_w.clear();
+                    fp_e.clear();
                     let _ = in_multi;
                 }
                 Role::Dump(..) => twin.push((s.0, s.1.clone())),
@@ -685,7 +881,7 @@ fn main() {
         }
         // T2: the twin
         let ndump = sc.steps.iter().filter(|s| matches!(s.2, Role::Dump(..))).count();
-        match run(&env, shards, &twin) {
+        match run(&env, shards, &singles(&twin)) {
             Ran::Ok(tr) => {
                 out.impl_checks += 1;
                 for (idx, want) in &twin_expect {
@@ -700,22 +896,7 @@ fn main() {
             }
             other => out.violation(i, "the twin run panicked or hung", json!({"result": format!("{:?}", other)})),
         }
-        // every distinct byte string once, steps and replies refer to it by index
-        let mut tbl: Vec<Vec<u8>> = Vec::new();
-        let mut idx: std::collections::HashMap<Vec<u8>, usize> = Default::default();
-        let mut ix = |b: &Vec<u8>, tbl: &mut Vec<Vec<u8>>| -> usize {
-            if let Some(&n) = idx.get(b) {
-                return n;
-            }
-            tbl.push(b.clone());
-            idx.insert(b.clone(), tbl.len() - 1);
-            tbl.len() - 1
-        };
-        // (1, i) = A sends tbl[i]; (0, i) = B sends tbl[i]; (2, ms) = a pause
-        let step_ix: Vec<(usize, usize)> = sc.steps.iter().map(|s| match s.2 { Role::Sleep(ms) => (2, ms as usize), _ => (if s.0 == 0 { 1 } else { 0 }, ix(&s.1, &mut tbl)) }).collect();
-        let reply_ix: Vec<usize> = replies.iter().map(|r| ix(r, &mut tbl)).collect();
-        let term = format!("(KTx {} {} {} false)", clist(tbl.iter(), |b| chex(b)), clist(step_ix.iter(), |s| format!("({}, {})", s.0, s.1)), clist(reply_ix.iter(), |r| r.to_string()));
-        out.case(i, term, nontrivial, &format!("{}{}", shards, sc.steps.iter().zip(replies.iter()).map(|(s, r)| format!("{}{}{}", s.0, hex(&s.1), hex(r))).collect::<String>()));
+        out.case(i, term, nontrivial, &canon);
         out.sample(json!({"shards": shards, "outcomes": exec_kinds, "steps": descr(&replies)}));
         if args.only.is_some() {
             println!("shards {}", shards);
